@@ -159,3 +159,31 @@ def cmp_tests(fn):
                 ent["true_edge" if vneg else "false_edge"] = ff
             out.append({"site": site, "op": cc[1], "a": cc[2], "b": cc[3], "true_edge": ent["true_edge"], "false_edge": ent["false_edge"], "line": t.get("l"), "via_flag": True})
     return out
+
+
+def nonzero_edges(fn, is_x):
+    """block edges on which the value selected by `is_x(sym tree)` is known to be non-zero (unsigned):
+    `x == 0` false, `x != 0` true, `x > 0` true, `0 < x` true, `x >= 1` true, `x < 1` false, `x <= 0` false, `0 >= x` false"""
+    out = []
+    Z, ONE = ("c", 0), ("c", 1)
+    for t in cmp_tests(fn):
+        a, b, op = t["a"], t["b"], t["op"]
+        te, fe = t["true_edge"], t["false_edge"]
+        e = None
+        if is_x(a):
+            if op == "Eq" and b == Z: e = fe
+            elif op == "Ne" and b == Z: e = te
+            elif op == "Gt" and b == Z: e = te
+            elif op == "Ge" and b == ONE: e = te
+            elif op == "Lt" and b == ONE: e = fe
+            elif op == "Le" and b == Z: e = fe
+        elif is_x(b):
+            if op == "Eq" and a == Z: e = fe
+            elif op == "Ne" and a == Z: e = te
+            elif op == "Lt" and a == Z: e = te
+            elif op == "Le" and a == ONE: e = te
+            elif op == "Gt" and a == ONE: e = fe
+            elif op == "Ge" and a == Z: e = fe
+        if e:
+            out.append(e)
+    return out
